@@ -224,7 +224,7 @@ class FakeNumpy:
         return as_arr(a).squeeze()
 
     @staticmethod
-    def conj(a):
+    def conj(a, order=None):
         if isinstance(a, (int, float, complex)):
             return a.conjugate() if isinstance(a, complex) else a
         return as_arr(a).conj()
@@ -557,7 +557,12 @@ class FakeNumpy:
     def isin(x, coll):
         if isinstance(coll, Arr):
             raise UnknownTruth('np.isin on a symbolic array')
-        return x in list(coll)
+        members = list(coll) if isinstance(coll, (list, tuple, range)) else [coll]
+        if isinstance(x, (list, tuple, range)):          # (also IntVec): element-wise, as NumPy does
+            return [v in members for v in x]
+        if isinstance(x, Arr):
+            raise AnalysisError('np.isin of a symbolic array has no model')
+        return x in members
 
     @staticmethod
     def setdiff1d(a, b):
